@@ -418,7 +418,10 @@ func main() {
 	rep = vh.NewReport(a, "parsed trees: corpus/C25/*.go, $GOROOT/src .go files outside testdata (quick: PRNG sample of 300, thorough: all), every .go file of $VERIF_REPO, grammar-generated programs (c24lib.Gen); "+
 		"type-parameter files and files with the identifier `macro` excluded (counted). Oracle A: go/parser tree -> fork printer (base/output configuration) -> go/parser: declarations identical incl. ParenExpr (positions excluded), second print = first print; "+
 		"oracle B: fork parser nodes -> output.Stringer per declaration -> go/parser: identical, second print identical. Built trees: random expression trees over operands, 19 binary operators, unary + - ! ^ & <-, StarExpr, ParenExpr, selector/call/index/slice/type-assertion operands, "+
-		"nested against precedence WITHOUT ParenExpr (macro-expansion shapes): print -> go/parser -> equal modulo ParenExpr -> print again identical. Non-trivial: parsed file with >=1 declaration; built tree containing a binary operand under a tighter operator, a right-nested operator of equal precedence, or a binary operand of a unary/star/selector/call/index; distinct by SHA-256")
+		"nested against precedence WITHOUT ParenExpr (macro-expansion shapes): print -> go/parser -> equal modulo ParenExpr -> print again identical. "+
+		"Stream D (needed parentheses): every parsed source that passed A/B is parsed again, EVERY ParenExpr is removed from the tree (what fast.Comp.MacroExpandCodewalk does before gomacro -m -w prints), printed per declaration, reparsed with go/parser: must parse, equal the stripped tree modulo ParenExpr, and print identically again. "+
+		"Headers generator (headers.go): functions whose statements are if/else-if/for/3-clause for/range/switch/type-switch headers (with and without init/post statements) containing composite literals of named struct/array/map/qualified/nested types as operands of == and !=, method receivers, call arguments, indexed, selected, under & and !, inside brackets, precedence parentheses and func literals, "+
+		"plus conversions (<-chan T)(c) (chan<- T)(c) (chan T)(c) (*T)(p) (**T) (func())(f) ([]T)(x) (map[K]V)(m) (interface{})(x) (struct{})(x), channel-of-channel types chan (<-chan T) etc. in var declarations and conversions, conversions as operands of * <- selector call; every parenthesis in the generated text is needed, so parsed trees compare exactly; stream D runs on them with and without positions. Non-trivial (stream D): the printer had to write at least one parenthesis back. Non-trivial (other streams): parsed file with >=1 declaration; built tree containing a binary operand under a tighter operator, a right-nested operator of equal precedence, or a binary operand of a unary/star/selector/call/index; distinct by SHA-256")
 	wd = vh.NewWatchdog(rep, 60*time.Second)
 	verif := os.Getenv("VERIF_DIR")
 	if verif == "" {
@@ -431,6 +434,10 @@ func main() {
 	run := func(in input) string {
 		st := checkParsed(in)
 		rep.Dist(in.origin + ":" + st)
+		// stream D (headers.go): the same tree without any ParenExpr, as macro expansion leaves it
+		if strings.HasPrefix(st, "ok") || in.origin == "corpus" {
+			rep.Dist(in.origin + ":stripped:" + checkStripped(in, false))
+		}
 		return st
 	}
 	cfiles, _ := filepath.Glob(filepath.Join(verif, "corpus", "C25", "*.go"))
@@ -491,6 +498,45 @@ func main() {
 		st := run(input{fmt.Sprintf("gen#%d", i), "generated", src})
 		if i%200 == 5 {
 			rep.Sample(map[string]string{"generated": clip(string(src), 500), "status": st})
+		}
+	}
+
+	// ---- headers and conversions (headers.go): every parenthesis of the source is needed.  Parsed trees: oracles A and B
+	// (exact comparison); stream D with positions (macro expansion of parsed code) and without (trees built by hand)
+	nHdr := 400
+	if a.Thorough() {
+		nHdr = 8000
+	}
+	if a.N > 0 {
+		nHdr = a.N
+	}
+	hr := rng.Fork()
+	for i := 0; i < nHdr; i++ {
+		hg := &hgen{r: hr, feat: map[string]bool{}}
+		src := []byte(hg.file(1+hr.Intn(3), 1+hr.Intn(4)))
+		in := input{fmt.Sprintf("hdr#%d", i), "generated", src}
+		st := checkParsed(in)
+		rep.Dist("headers:" + st)
+		if st == "skipped:not-valid-go" {
+			// a defect of the generator, not of gomacro: reported so that it cannot go unnoticed
+			fail(in, "harness:headers-generator-invalid", "harness: the header generator wrote invalid Go", nil, nil)
+			continue
+		}
+		var feats []string
+		for f := range hg.feat {
+			feats = append(feats, f)
+		}
+		sort.Strings(feats)
+		for _, f := range feats {
+			rep.Dist("headers-feature:" + f)
+		}
+		if strings.HasPrefix(st, "ok") {
+			rep.Dist("headers:stripped:" + checkStripped(in, false))
+			in.name += "(no positions)"
+			rep.Dist("headers:stripped,no-positions:" + checkStripped(in, true))
+		}
+		if i%100 == 7 {
+			rep.Sample(map[string]string{"headers": clip(string(src), 700), "status": st})
 		}
 	}
 
